@@ -163,3 +163,94 @@ def compare(impl, model):
                 d.append(('index=%d %s cells' % (a['i'], n1), '%d rows, first difference at cell %r: %s' % (r1, j, c1[j] if j is not None else len(c1)),
                           '%d rows, %s' % (r2, c2[j] if j is not None else len(c2))))
     return d
+
+
+# ---------------------------------------------------------------------------------------------
+# abstraction of a TOUGH2-family listing into the generative shape of coq/C05/FileT2.v: one role tag
+# per line, assigned from the printed text alone (no PyTOUGH code).  The tags are only a proposal: the
+# extracted checker (CheckT2.file_check, proved sound) decides whether the file is in the class.
+import re
+import c05_oracle as O
+
+TABLE_TAG = {'element': 'E', 'connection': 'C', 'primary': 'P', 'generation': 'G'}
+
+
+def table_kind(words):
+    """the table a header line announces, from its first words"""
+    w = words[:3]
+    if len(w) >= 3 and w[0] == 'ELEM.' and w[1] in ('INDEX', 'IND.'):
+        return 'element' if w[2] == 'P' else ('primary' if w[2] == 'X1' else None)
+    if w == ['ELEM1', 'ELEM2', 'INDEX']: return 'connection'
+    if len(w) == 3 and w[0] in ('ELEMENT', 'ELEM.') and w[1] == 'SOURCE' and w[2] == 'INDEX': return 'generation'
+    return None
+
+
+def is_at(line): return line[1:6] == '@@@@@'
+
+
+def tag_table(lines, tags, i, end, kind):
+    """tags the table whose header is line i; -> index after its separator, or None (nothing tagged)"""
+    hw = O.header_words(lines[i])
+    if kind is None or hw is None: return None
+    z = next((q for q in range(i + 1, end) if is_at(lines[q])), None)
+    if z is None: return None
+    nkeys, cols = hw
+    nint = 2 if cols and cols[0] == 'I' else 1
+    rows, keypos = [], None
+    for q in range(i + 1, z):
+        r = O.parse_row(lines[q], nkeys, nint, keypos)
+        if r is not None:
+            if keypos is None: keypos = r[4]
+            rows.append(q)
+    if not rows: return None
+    tags[i] = TABLE_TAG[kind]
+    for q in range(i + 1, rows[0]): tags[q] = 'f'
+    rs = set(rows)
+    for q in range(rows[0], rows[-1] + 1): tags[q] = 'r' if q in rs else 'g'
+    for q in range(rows[-1] + 1, z): tags[q] = 'e'
+    tags[z] = 'z'
+    return z + 1
+
+
+def tag_lines(lines):
+    """-> string of tags (one per line) or None when the text does not even have the outline of a listing"""
+    n = len(lines)
+    tags = ['?'] * n
+    oda = [i for i, l in enumerate(lines) if l.lstrip().lower().startswith('output data after')]
+    if not oda: return None
+    pos = 0
+    for k, o in enumerate(oda):
+        end = oda[k + 1] if k + 1 < len(oda) else n
+        tt = next((i for i in range(o + 1, end) if 'total time' in lines[i].lower()), None)
+        if tt is None or tt + 1 >= end: return None
+        for i in range(pos, tt + 1): tags[i] = 'l'          # lead: up to and including the TOTAL TIME line
+        tags[tt + 1] = 't'
+        i = tt + 2
+        while i < end and not is_at(lines[i]): tags[i] = 'h'; i += 1
+        if i >= end: return None
+        tags[i] = 's'; i += 1
+        while i < end and not lines[i].strip(): tags[i] = 'b'; i += 1
+        if i < end and len(lines[i].split()) < 4:             # one short line ('NCG = CO2') and blank lines before the header
+            tags[i] = 'y'; i += 1
+            while i < end and not lines[i].strip(): tags[i] = 'y'; i += 1
+        if i >= end: return None
+        i = tag_table(lines, tags, i, end, 'element')        # the reader calls the first table 'element' whatever its header
+        if i is None: return None
+        while i < end:
+            # lines up to the header of the next table: ..., a KCYC/ITER line, blank lines, the header
+            kc = next((q for q in range(i, end) if lines[q].strip().startswith('KCYC') and 'ITER' in lines[q]), None)
+            if kc is None: break
+            q = kc + 1
+            while q < end and not lines[q].strip(): q += 1
+            if q >= end: break
+            nxt = tag_table(lines, tags, q, end, table_kind(lines[q].split()))
+            if nxt is None: break
+            for p in range(i, q): tags[p] = 'i'
+            i = nxt
+        for p in range(i, end): tags[p] = 'x'
+        pos = end
+    return ''.join(tags)
+
+
+def fchk_line(sim, tags, lines):
+    return 'fchk\t%s\t%s\t%s' % (sim, tags, '\t'.join(hx(l) for l in lines))
